@@ -2,3 +2,4 @@
 import SfModel.Basic
 import SfModel.Float
 import SfModel.G711
+import SfModel.Pcm
